@@ -7,7 +7,7 @@ Message spec (JSON-able)
              "trailers": [[name, value]...], "eol": "crlf"|"lf", "hexupper": bool, "lz": int (leading zeros),
              "conn": None|"close"|"keep-alive"}
   response: {"t": "resp", "version", "status", "reason", ... same ..., "frame": "len"|"chunked"|"close"|"nobody",
-             "pre100": bool, "reqmethod": "GET"|"HEAD"}
+             "pre100": bool | 2 | 3 (number of interim 100 responses), "reqmethod": "GET"|"HEAD"}
 """
 from urllib.parse import unquote, urlsplit
 
@@ -85,7 +85,10 @@ def build(spec):
         body = b""
     pre = b""
     if spec["t"] == "resp" and spec.get("pre100"):
-        pre = b"HTTP/1.1 100 Continue" + e + e
+        # True / 1: one interim response; 2-3: several; odd counts > 1 carry a header in the interim responses
+        n100 = 1 if spec["pre100"] is True else int(spec["pre100"])
+        one = b"HTTP/1.1 100 Continue" + e + ((b"X-Interim: yes" + e) if n100 > 2 else b"") + e
+        pre = one * n100
     return pre + head + body
 
 
@@ -204,7 +207,7 @@ def response_spec(draw, eols=("crlf", "crlf", "lf"), frames=("len", "chunked", "
             "headers": draw(headers()), "frame": frame, "body": body,
             "eol": draw(st.sampled_from(list(eols))),
             "conn": draw(st.sampled_from([None, None, "close", "keep-alive"])),
-            "pre100": draw(st.integers(0, 7)) == 0, "reqmethod": "GET"}
+            "pre100": draw(st.sampled_from([False, False, False, False, False, False, True, True, 2, 3])), "reqmethod": "GET"}
     if frame == "chunked":
         spec["sizes"] = draw(st.lists(st.integers(1, 40), max_size=6))
         spec["exts"] = draw(st.lists(ext_list(), max_size=7))
@@ -221,6 +224,8 @@ def cuts():
         st.fixed_dictionaries({"mode": st.just("every"), "k": st.integers(2, 17)}),
         st.fixed_dictionaries({"mode": st.just("in-crlf"), "extra": st.lists(st.integers(0, 10 ** 6), max_size=3)}),
         st.fixed_dictionaries({"mode": st.just("after-lf"), "extra": st.lists(st.integers(0, 10 ** 6), max_size=3)}),
+        # one or two cuts near the start of the data (start line / first header lines), the rest in one read
+        st.fixed_dictionaries({"mode": st.just("early"), "at": st.lists(st.integers(1, 90), min_size=1, max_size=2)}),
     )
 
 
@@ -240,6 +245,8 @@ def fragments(data, recipe):
     elif mode == "after-lf":
         pts = {i + 1 for i in range(n - 1) if data[i:i + 1] in (b"\n", b"\r")}
         pts |= {p % (n - 1) + 1 for p in recipe.get("extra", [])}
+    elif mode == "early":
+        pts = {p for p in recipe["at"]}
     pts = sorted(p for p in pts if 0 < p < n)
     out, prev = [], 0
     for p in pts:
